@@ -108,7 +108,8 @@ func H_atlas() {
 	start, end := verifInt("start"), verifInt("end")
 	verifAssume(priv != "" && pub != "")
 	// identifiers and keys are URL-safe tokens (stated bound; keeps native requests well-formed)
-	verifAssume(verifTokenRe.MatchString(pub) && verifTokenRe.MatchString(priv) && verifTokenRe.MatchString(proj) && verifTokenRe.MatchString(cluster))
+	// (the private key never belongs in a URL or header, so it is an arbitrary non-empty string)
+	verifAssume(verifTokenRe.MatchString(pub) && verifTokenRe.MatchString(proj) && verifTokenRe.MatchString(cluster))
 	verifAssume(start >= 0 && end >= 0)
 	ck := verifChoose("challenge", 3) // 0: none, 1: Digest, 2: Basic
 	rt := &verifRT{challenge: ck != 0, basic: ck == 2}
